@@ -642,8 +642,8 @@ func ruleTabGN(c *Ctx, r *Rep) {
 		fns = append(fns, f)
 	}
 	sort.Slice(fns, func(i, j int) bool { return c.FuncKey(fns[i]) < c.FuncKey(fns[j]) })
-	if len(fns) < 2 {
-		r.Undecided("floor:label-tables", "", sprintf("%d general-name label tables found, expected 2 (subjectAlternativeName and admission authorities)", len(fns)))
+	if len(fns) < 1 {
+		r.Undecided("floor:label-tables", "", sprintf("%d general-name label tables found, expected at least 1 (subjectAlternativeName and admission authorities may share one)", len(fns)))
 	}
 	agree := map[string]map[string]bool{}
 	for _, f := range fns {
@@ -818,6 +818,56 @@ func ruleTabRDN(c *Ctx, r *Rep) {
 		}
 		if !known {
 			r.Infof("additional attribute short name %q", k)
+		}
+	}
+	// the validator judges an RDN by its first attribute: then every RDN the module builds has exactly one
+	isSet := func(t types.Type) bool { return typeIs(t, "crypto/x509/pkix", "RelativeDistinguishedNameSET") }
+	firstOnly := ""
+	if v := c.Func("generator/config", "Validate"); v != nil {
+		for _, b := range v.Blocks {
+			for _, ins := range b.Instrs {
+				if ia, ok := ins.(*ssa.IndexAddr); ok && isSet(ia.X.Type()) {
+					if k, isK := ia.Index.(*ssa.Const); isK && k.Int64() == 0 {
+						firstOnly = c.Pos(ia.Pos())
+					}
+				}
+			}
+		}
+	}
+	if firstOnly != "" {
+		n := 0
+		for _, fn := range c.Funcs {
+			for _, b := range fn.Blocks {
+				for _, ins := range b.Instrs {
+					switch x := ins.(type) {
+					case *ssa.Slice:
+						if !isSet(x.Type()) {
+							continue
+						}
+						n++
+						size := int64(-1)
+						if al, ok := x.X.(*ssa.Alloc); ok {
+							if arr, ok := al.Type().Underlying().(*types.Pointer).Elem().Underlying().(*types.Array); ok && x.Low == nil && x.High == nil {
+								size = arr.Len()
+							}
+						}
+						r.Check(size == 1, sprintf("rdn-singleton|%s#%d", c.FuncKey(fn), n), c.Pos(x.Pos()), "an RDN with exactly one attribute (the validator at "+firstOnly+" looks at the first one only)", sprintf("%d attributes", size))
+					case *ssa.MakeSlice:
+						if isSet(x.Type()) {
+							n++
+							r.Bad(sprintf("rdn-singleton|%s#%d", c.FuncKey(fn), n), c.Pos(x.Pos()), "an RDN with exactly one attribute", "made with a computed length")
+						}
+					case *ssa.Call:
+						if bi, ok := x.Call.Value.(*ssa.Builtin); ok && bi.Name() == "append" && isSet(x.Type()) {
+							n++
+							r.Bad(sprintf("rdn-singleton|%s#%d", c.FuncKey(fn), n), c.Pos(x.Pos()), "an RDN with exactly one attribute", "attributes are appended to an RDN")
+						}
+					}
+				}
+			}
+		}
+		if n == 0 {
+			r.Undecided("floor:rdn-literals", "", "no RDN is built anywhere in the module")
 		}
 	}
 }
@@ -1035,6 +1085,58 @@ func ruleTabSuffix(c *Ctx, r *Rep) {
 		}
 	}
 	if best == nil {
+		// the filter written as one regular expression: a constant pattern, evaluated against the reference suffixes and
+		// against names that merely contain one
+		for _, fn := range c.Funcs {
+			if fn.Pkg == nil || !strings.Contains(fn.Pkg.Pkg.Path(), "filesystem") {
+				continue
+			}
+			for _, ci := range callsIn(fn) {
+				name := calleeFullName(ci)
+				if name != "(*regexp.Regexp).MatchString" && name != "(*regexp.Regexp).Match" {
+					continue
+				}
+				g := loadedGlobal(ci.Common().Args[0])
+				if g == nil {
+					continue
+				}
+				d := c.evaluator().GlobalVal(g.Object())
+				if d.Kind != "call" || !strings.HasSuffix(d.Fn, "regexp.MustCompile") || len(d.Args) != 1 || !d.Args[0].IsConst() {
+					continue
+				}
+				pat, _ := d.Args[0].Str()
+				if len(c.globalWrites(g.Object())) > 0 {
+					r.Undecided("shape:suffix-pattern", c.Pos(ci.Pos()), "the pattern variable is reassigned")
+					return
+				}
+				re, err := regexp.Compile(pat)
+				if err != nil {
+					r.Undecided("shape:suffix-pattern", c.Pos(ci.Pos()), "pattern does not compile: "+pat)
+					return
+				}
+				pos := c.Pos(ci.Pos())
+				for _, sfx := range want {
+					okS := re.MatchString("dir/name"+sfx) && re.MatchString("NAME"+strings.ToUpper(sfx))
+					r.Check(okS, "suffix|"+sfx, pos, "suffix "+sfx+" recognised in any case (pattern "+pat+")", sprintf("%v", okS))
+				}
+				var extra []string
+				for _, sfx := range want {
+					for _, decoy := range []string{"name" + sfx + ".bak", "name" + sfx + "~", "name" + sfx + "l", sfx[1:], "name" + sfx + "/x.txt"} {
+						if re.MatchString(decoy) {
+							extra = append(extra, decoy)
+						}
+					}
+				}
+				for _, decoy := range []string{"name.txt", "name.pem", "name", "name.yam", "name.jso", "name.toml"} {
+					if re.MatchString(decoy) {
+						extra = append(extra, decoy)
+					}
+				}
+				r.Check(len(extra) == 0, "suffix-extra|pattern", pos, "only names that end in .yaml .yml .json are configuration files", strings.Join(extra, " , "))
+				r.Ok("lower-cased", pos, "the pattern is matched case-insensitively (checked with upper-case names)", pat)
+				return
+			}
+		}
 		r.Undecided("anchor:suffix-filter", "", "no function in the filesystem package tests file name suffixes")
 		return
 	}
